@@ -14,7 +14,7 @@ from sa.flow import Interp
 from sa.summary import is_abstract_body
 
 CLAIM = {
-    "text": "Decides the exception-type clause for every deserialisation entry point (one-shot, incremental and buffered methods of every shipped serializer class, analysed per concrete class; the protocol builders; the two stream consumers): the set of exception classes that can escape - computed bottom-up from explicit raises, resolved repository callees and a reviewed raise table of the external decoders (str/bytes.decode, json, struct, base64, zlib, bz2, pickle, cbor2, msgpack), filtered through every handler with an exception-class lattice, with handler classes and decoder callables held in attributes resolved by write-once constant propagation - is contained in the parse-error family of that entry point; every conversion handler raises on all of its branches; one-shot errors never leak out of incremental generators. Also decided: (arms) no conversion arm is shadowed by an earlier arm; (attr) every attribute read from the caught exception exists on instances of every class the arm catches (so the arm itself cannot raise AttributeError); (gen) after a parse error no finished or dead parser generator stays parked in a stream consumer (the next call would resume it and a TypeError would escape). (lim) the accumulation guards of C07 and the bounded reads of C02 hold for the same generators: an over-long token ends in LimitOverrunError and bytes beyond the received length never take part in a parse. Round 4 (C06.rem): the remainder carried by every parse error is the unread input - the remainder rules of C01.rem, C02.lim and C07.early run under this property. Round 6: a codec chosen by configuration may raise a plain UnicodeError (synthetic leaf UnicodeError[codec]): handlers narrowed to UnicodeDecodeError no longer cover it; module-level functions handed around as callbacks (decoder hooks) raise no parse error.",
+    "text": "Decides the exception-type clause for every deserialisation entry point (one-shot, incremental and buffered methods of every shipped serializer class, analysed per concrete class; the protocol builders; the two stream consumers): the set of exception classes that can escape - computed bottom-up from explicit raises, resolved repository callees and a reviewed raise table of the external decoders (str/bytes.decode, json, struct, base64, zlib, bz2, pickle, cbor2, msgpack), filtered through every handler with an exception-class lattice, with handler classes and decoder callables held in attributes resolved by write-once constant propagation - is contained in the parse-error family of that entry point; every conversion handler raises on all of its branches; one-shot errors never leak out of incremental generators. Also decided: (arms) no conversion arm is shadowed by an earlier arm; (attr) every attribute read from the caught exception exists on instances of every class the arm catches (so the arm itself cannot raise AttributeError); (gen) after a parse error no finished or dead parser generator stays parked in a stream consumer (the next call would resume it and a TypeError would escape). (lim) the accumulation guards of C07 and the bounded reads of C02 hold for the same generators: an over-long token ends in LimitOverrunError and bytes beyond the received length never take part in a parse. Round 4 (C06.rem): the remainder carried by every parse error is the unread input - the remainder rules of C01.rem, C02.lim and C07.early run under this property. Round 6: a codec chosen by configuration may raise a plain UnicodeError (synthetic leaf UnicodeError[codec]): handlers narrowed to UnicodeDecodeError no longer cover it; module-level functions handed around as callbacks (decoder hooks) raise no parse error. Round 7: the remainder-carried rule of C02 also runs here (an oversized frame must not cost the frames behind it).",
     "note": "Trusted base: the raise table (sa/analyses/escape.py RAISE_TABLE, reviewed against CPython 3.12; rows for cbor2/msgpack contain the documented sets only because those libraries are absent here); abstract methods are held to their documented contract; MemoryError/KeyboardInterrupt/SystemExit are outside the universe; configuration-dependent raises (argument validation, wrong codec names, user hooks) are excluded. Not decided: no-hang, progress per error.",
     "technique": "interprocedural exception-escape (effect) analysis by abstract interpretation with an exception-class lattice and write-once constant propagation of attribute-held classes/callables",
 }
